@@ -1305,6 +1305,18 @@ def _match(r, c, params, locals_, sigma, lam):
                 continue
             a, b = getattr(r, f, None), getattr(c, f, None)
             if isinstance(a, list):
+                star = next((p_[1:] for p_ in params if p_.startswith("*")), None)
+                if star and a and isinstance(a[-1], ast.Starred) and isinstance(a[-1].value, ast.Name) and a[-1].value.id == star \
+                        and isinstance(b, list) and len(b) >= len(a) - 1 and not any(isinstance(y, ast.Starred) for y in b):
+                    # f(x, *args) in the helper against f(x, p, q) in the pasted copy: args = (p, q)
+                    rest = b[len(a) - 1:]
+                    key = "*" + star
+                    if key in sigma:
+                        if [ast.dump(y) for y in sigma[key]] != [ast.dump(y) for y in rest]:
+                            return False
+                    else:
+                        sigma[key] = rest
+                    a, b = a[:-1], b[:len(a) - 1]
                 if not isinstance(b, list) or len(a) != len(b):
                     return False
                 for x, y in zip(a, b):
@@ -1318,6 +1330,116 @@ def _match(r, c, params, locals_, sigma, lam):
                     return False
         return True
     return r == c
+
+
+def _body_dump(body):
+    body = body[1:] if body and _is_doc(body[0]) and len(body) > 1 else body
+    return [ast.dump(st) for st in body]
+
+
+def restore_moved_methods(asts, ref):
+    """A reference method C.m that vanished because it was moved, body unchanged,
+    (A) to a module-level function f(obj, ...) of the same module (first parameter in the role of self), or
+    (B) to another class D of the same module as D.f, reaching the C instance through one attribute (self.A.x for self.x)
+    is put back: C.m is re-created from the moved body, calls f(obj, ..) become obj.m(..) / calls self.f(..) inside D become
+    self.A.m(..), and the moved copy is removed.  Exact inverse of the move, hence behaviour-preserving."""
+    from .canon import reference_function
+    done = []
+    if not ref:
+        return done
+    for rel, mod in asts.items():
+        runits = ref.get(rel)
+        if runits is None:
+            continue
+        units = _units(mod)
+        changed = False
+        for ks in sorted(runits):
+            k = tuple(ks.split("|"))
+            if k[0] != "meth" or k in units or ("cls", k[1]) not in units:
+                continue
+            rfn = reference_function(rel, k)
+            if rfn is None or not rfn.args.args or rfn.args.args[0].arg != "self" or rfn.decorator_list:
+                continue
+            want = _body_dump(rfn.body)
+            cnode = next(c for c in mod.body if isinstance(c, ast.ClassDef) and c.name == k[1])
+            restored = None
+            # (A) module-level function
+            for f in [x for x in mod.body if isinstance(x, ast.FunctionDef) and ("fn", x.name) not in
+                      {tuple(q.split("|")) for q in runits} and x.args.args and not x.decorator_list]:
+                p0 = f.args.args[0].arg
+                if len(f.args.args) != len(rfn.args.args) or any(isinstance(n, ast.Name) and n.id == "self" for n in ast.walk(f)):
+                    continue
+                cand = copy.deepcopy(f)
+                for n in ast.walk(cand):
+                    if isinstance(n, ast.Name) and n.id == p0:
+                        n.id = "self"
+                    elif isinstance(n, ast.arg) and n.arg == p0:
+                        n.arg = "self"
+                if _body_dump(cand.body) != want or [a.arg for a in cand.args.args] != [a.arg for a in rfn.args.args]:
+                    continue
+                cand.name = k[2]
+                n_calls = 0
+                for n in ast.walk(mod):
+                    if isinstance(n, ast.Call) and isinstance(n.func, ast.Name) and n.func.id == f.name and n.args \
+                            and not isinstance(n.args[0], ast.Starred):
+                        n.func = ast.Attribute(value=n.args[0], attr=k[2], ctx=ast.Load())
+                        n.args = n.args[1:]
+                        n_calls += 1
+                if any(isinstance(n, ast.Name) and n.id == f.name for n in ast.walk(mod) if n is not f):
+                    # still referenced as a value somewhere (callback): keep a forwarding definition
+                    pass
+                else:
+                    mod.body.remove(f)
+                cnode.body.append(cand)
+                restored = {"method_restored_from_function": "%s:%s.%s <- %s" % (rel, k[1], k[2], f.name), "calls_rewritten": n_calls}
+                break
+            # (B) method of another class, through one attribute
+            if restored is None:
+                for dnode in [c for c in mod.body if isinstance(c, ast.ClassDef) and c is not cnode]:
+                    for f in [x for x in dnode.body if isinstance(x, ast.FunctionDef) and ("meth", dnode.name, x.name) not in
+                              {tuple(q.split("|")) for q in runits} and x.args.args and x.args.args[0].arg == "self" and not x.decorator_list]:
+                        if len(f.args.args) != len(rfn.args.args):
+                            continue
+                        attrs = {n.attr for n in ast.walk(f) if isinstance(n, ast.Attribute) and isinstance(n.value, ast.Name) and n.value.id == "self"}
+                        for a in sorted(attrs):
+                            # every use of self inside f goes through self.<a>
+                            if any(isinstance(n, ast.Name) and n.id == "self" and not (isinstance(getattr(n, "_parent", None), ast.Attribute)
+                                                                                         and n._parent.attr == a) for n in ast.walk(f) if not isinstance(n, ast.arg)):
+                                continue
+
+                            class Strip(ast.NodeTransformer):
+                                def visit_Attribute(self, n):
+                                    if isinstance(n.value, ast.Name) and n.value.id == "self" and n.attr == a:
+                                        return ast.Name(id="self", ctx=ast.Load())
+                                    return self.generic_visit(n)
+                            cand = Strip().visit(copy.deepcopy(f))
+                            if _body_dump(cand.body) != want or [x.arg for x in cand.args.args] != [x.arg for x in rfn.args.args]:
+                                continue
+                            cand.name = k[2]
+                            n_calls = 0
+                            for n in ast.walk(dnode):
+                                if isinstance(n, ast.Call) and isinstance(n.func, ast.Attribute) and n.func.attr == f.name \
+                                        and isinstance(n.func.value, ast.Name) and n.func.value.id == "self":
+                                    n.func = ast.Attribute(value=ast.Attribute(value=ast.Name(id="self", ctx=ast.Load()), attr=a, ctx=ast.Load()),
+                                                           attr=k[2], ctx=ast.Load())
+                                    n_calls += 1
+                            if not any(isinstance(n, ast.Attribute) and n.attr == f.name for n in ast.walk(mod)):
+                                dnode.body.remove(f)
+                            cnode.body.append(cand)
+                            restored = {"method_restored_from_class": "%s:%s.%s <- %s.%s via self.%s" % (rel, k[1], k[2], dnode.name, f.name, a),
+                                        "calls_rewritten": n_calls}
+                            break
+                        if restored:
+                            break
+                    if restored:
+                        break
+            if restored:
+                changed = True
+                done.append(restored)
+                units = _units(mod)
+        if changed:
+            _relink(mod, rel)
+    return done
 
 
 def outline_vanished_helpers(asts, ref):
@@ -1338,13 +1460,19 @@ def outline_vanished_helpers(asts, ref):
             if k[0] == "meth" and ("cls", k[1]) not in units:
                 continue
             rfn = reference_function(rel, k)
-            if rfn is None or not _eligible(rfn) or rfn.args.vararg:
+            if rfn is None:
+                continue
+            for x_ in ast.walk(rfn):
+                for ch_ in ast.iter_child_nodes(x_):
+                    ch_._parent = x_
+            if not _eligible(rfn):
                 continue
             hname = k[-1]
             is_method = k[0] == "meth"
             params = [a.arg for a in rfn.args.args]
             if is_method and not _is_static(rfn):
                 params = params[1:]
+            star = rfn.args.vararg.arg if rfn.args.vararg else None
             body = rfn.body[1:] if rfn.body and _is_doc(rfn.body[0]) and len(rfn.body) > 1 else rfn.body
             rets = _returns(rfn)
             value_helper = False
@@ -1370,6 +1498,7 @@ def outline_vanished_helpers(asts, ref):
                 hosts = [f for f in mod.body if isinstance(f, (ast.FunctionDef, ast.AsyncFunctionDef))] + \
                         [m for c in mod.body if isinstance(c, ast.ClassDef) for m in c.body if isinstance(m, (ast.FunctionDef, ast.AsyncFunctionDef))]
             n_sites = 0
+            pset = set(params) | ({"*" + star} if star else set())
             for host in hosts:
                 again = True
                 while again:
@@ -1381,22 +1510,22 @@ def outline_vanished_helpers(asts, ref):
                             run = lst[i:i + n]
                             ok = True
                             for rs, cs_ in zip(body[:-1] if value_helper else body, run[:-1] if value_helper else run):
-                                if not _match(rs, cs_, set(params), locals_, sigma, lam):
+                                if not _match(rs, cs_, pset, locals_, sigma, lam):
                                     ok = False
                                     break
                             target_kind = None
                             if ok and value_helper:
                                 last = run[-1]
                                 rv = body[-1].value
-                                if isinstance(last, ast.Return) and last.value is not None and _match(rv, last.value, set(params), locals_, sigma, lam):
+                                if isinstance(last, ast.Return) and last.value is not None and _match(rv, last.value, pset, locals_, sigma, lam):
                                     target_kind = ("return", None)
-                                elif isinstance(last, ast.Assign) and len(last.targets) == 1 and _match(rv, last.value, set(params), locals_, sigma, lam):
+                                elif isinstance(last, ast.Assign) and len(last.targets) == 1 and _match(rv, last.value, pset, locals_, sigma, lam):
                                     target_kind = ("assign", last.targets[0])
-                                elif isinstance(last, ast.Expr) and _match(rv, last.value, set(params), locals_, sigma, lam):
+                                elif isinstance(last, ast.Expr) and _match(rv, last.value, pset, locals_, sigma, lam):
                                     target_kind = ("expr", None)
                                 else:
                                     ok = False
-                            if not ok or any(p not in sigma for p in params):
+                            if not ok or any(p not in sigma for p in params) or (star and "*" + star not in sigma):
                                 continue
                             # the helper's locals must not be used by the host outside the run
                             moved = set(lam.values()) - ({lam[result_local]} if result_local and result_local in lam else set())
@@ -1406,7 +1535,8 @@ def outline_vanished_helpers(asts, ref):
                                 continue
                             recv = ast.Attribute(value=ast.Name(id="self", ctx=ast.Load()), attr=hname, ctx=ast.Load()) if is_method \
                                 else ast.Name(id=hname, ctx=ast.Load())
-                            call = ast.Call(func=recv, args=[copy.deepcopy(sigma[p]) for p in params], keywords=[])
+                            call = ast.Call(func=recv, args=[copy.deepcopy(sigma[p]) for p in params]
+                                            + ([copy.deepcopy(y) for y in sigma["*" + star]] if star else []), keywords=[])
                             if result_local is not None and result_local in lam:
                                 new = ast.Assign(targets=[ast.Name(id=lam[result_local], ctx=ast.Store())], value=call)
                             elif not value_helper or target_kind[0] == "expr":
